@@ -7,6 +7,7 @@ package main
 // 127.0.0.1 with a recording net.Conn.
 
 import (
+	"net/url"
 	"bytes"
 	"compress/flate"
 	"encoding/json"
@@ -685,9 +686,18 @@ func c13(c *h.Ctx) {
 	// 5. opening handshake: real Dial/Upgrade over loopback, both compression settings
 	for _, sc := range []bool{false, true} {
 		for _, cc := range []bool{false, true} {
-			c13Handshake(c, sc, cc, false)
-			c13Handshake(c, sc, cc, true)
+			c13Handshake(c, sc, cc, false, 0)
+			c13Handshake(c, sc, cc, true, 0)
 		}
+	}
+	// the other two entry points of the opening handshake: NewClient (client side, over a connection the caller
+	// dialled) against a compressing and a plain server, and the package-level Upgrade function (server side)
+	// against a compressing and a plain client
+	for _, other := range []bool{false, true} {
+		c13Handshake(c, other, false, false, 1)
+		c13Handshake(c, other, false, true, 1)
+		c13Handshake(c, false, other, false, 2)
+		c13Handshake(c, false, other, true, 2)
 	}
 }
 
@@ -800,8 +810,17 @@ func (c *recConn) Read(p []byte) (int, error) {
 	return n, err
 }
 
-func c13Handshake(c *h.Ctx, serverCompress, clientCompress, serverFirst bool) {
-	in := fmt.Sprintf("handshake serverCompression=%v clientCompression=%v serverSpeaksFirst=%v", serverCompress, clientCompress, serverFirst)
+// via: 0 = Upgrader.Upgrade + Dialer.Dial; 1 = the client goes through NewClient over a connection it dialled
+// itself (no compression offer); 2 = the server goes through the package-level Upgrade function (no compression).
+func c13Handshake(c *h.Ctx, serverCompress, clientCompress, serverFirst bool, via int) {
+	if via == 1 {
+		clientCompress = false
+	}
+	if via == 2 {
+		serverCompress = false
+	}
+	in := fmt.Sprintf("handshake serverCompression=%v clientCompression=%v serverSpeaksFirst=%v via=%s", serverCompress, clientCompress, serverFirst,
+		[]string{"Upgrader+Dialer", "Upgrader+NewClient", "Upgrade()+Dialer"}[via])
 	res := h.Safe(func() string {
 		ln, err := net.Listen("tcp", "127.0.0.1:0")
 		if err != nil {
@@ -818,7 +837,13 @@ func c13Handshake(c *h.Ctx, serverCompress, clientCompress, serverFirst bool) {
 		up := ws.Upgrader{EnableCompression: serverCompress, ReadBufferSize: 256, WriteBufferSize: 256,
 			CheckOrigin: func(*http.Request) bool { return true }}
 		srv := &http.Server{Handler: http.HandlerFunc(func(w http.ResponseWriter, req *http.Request) {
-			conn, err := up.Upgrade(w, req, nil)
+			var conn *ws.Conn
+			var err error
+			if via == 2 {
+				conn, err = ws.Upgrade(w, req, nil, 256, 256)
+			} else {
+				conn, err = up.Upgrade(w, req, nil)
+			}
 			if err != nil {
 				done <- srvOut{err: "upgrade: " + err.Error()}
 				return
@@ -871,7 +896,18 @@ func c13Handshake(c *h.Ctx, serverCompress, clientCompress, serverFirst bool) {
 				}
 				return rc, nil
 			}}
-		conn, resp, err := d.Dial("ws://"+ln.Addr().String()+"/", nil)
+		var conn *ws.Conn
+		var resp *http.Response
+		if via == 1 {
+			nc, derr := d.NetDial("tcp", ln.Addr().String())
+			if derr != nil {
+				return "dial: " + derr.Error()
+			}
+			u, _ := url.Parse("ws://" + ln.Addr().String() + "/")
+			conn, resp, err = ws.NewClient(nc, u, nil, 512, 128)
+		} else {
+			conn, resp, err = d.Dial("ws://"+ln.Addr().String()+"/", nil)
+		}
 		if err != nil {
 			return "dial: " + err.Error()
 		}
